@@ -1144,8 +1144,15 @@ impl ObjFiber {
     }
 
     pub(crate) fn store_error_ip_or(&mut self, alternative: *const u8) {
-        self.current_frame_mut().expect("Expected CallFrame.").ip =
-            self.error_ip.unwrap_or(alternative);
+        // The recorded location is only meaningful for the frame it was recorded in: once the
+        // frames of the raising function have been unwound it points into another chunk.
+        let error_ip = self.error_ip;
+        let frame = self.current_frame_mut().expect("Expected CallFrame.");
+        let code = frame.closure.function.chunk.code.as_ptr_range();
+        frame.ip = match error_ip {
+            Some(ip) if code.start < ip && ip <= code.end => ip,
+            _ => alternative,
+        };
     }
 
     pub(crate) unsafe fn unchecked_native_frame_slot(&self, index: usize) -> Value {
